@@ -6,6 +6,7 @@ import (
 	"github.com/dadrus/heimdall/verif/props/c02"
 	"github.com/dadrus/heimdall/verif/props/c06"
 	"github.com/dadrus/heimdall/verif/props/c07"
+	"github.com/dadrus/heimdall/verif/props/c09"
 	"github.com/dadrus/heimdall/verif/props/c12"
 	"github.com/dadrus/heimdall/verif/props/c13"
 	"github.com/dadrus/heimdall/verif/props/c16"
@@ -19,6 +20,7 @@ func main() {
 		c02.Check(),
 		c06.Check(),
 		c07.Check(),
+		c09.Check(),
 		c12.Check(),
 		c13.Check(),
 		c16.Check(),
